@@ -73,16 +73,56 @@ def _site():
 
 
 class Buf:
-    __slots__ = ("data", "tag")
+    __slots__ = ("data", "tag", "single")
 
     def __init__(self, data, tag=None):
         self.data = data
         self.tag = tag
+        self.single = False       # storage is IEEE binary32: every store rounds (see to_single)
 
     def write(self, k, v):
         if self.tag is not None:
             WRITE_LOG.append((self.tag, k, self.data[k], v, _site()))
         self.data[k] = v
+
+
+SINGLE_TERMS = {}                 # z3 ast ids of reals known to be binary32 values (fields unpacked with 'f')
+
+
+def mark_single(v):
+    if isinstance(v, SymReal):
+        SINGLE_TERMS[v.e.get_id()] = v.e     # keeps the term alive, so the id is never re-used
+    return v
+
+
+def to_single(v):
+    """value stored into a float32 slot.  Concrete numbers: the real conversion.  Symbolic integers below 2**31:
+    exact round-to-nearest-even (identity up to 2**24, then steps of 2, 4, ... 128).  Symbolic reals that were
+    read from a binary32 field: identity.  Anything else is not modelled (loud)."""
+    import struct as _st
+    if isinstance(v, (bool, SymBool)):
+        return v
+    if isinstance(v, (int, float)) and not isinstance(v, (SymReal, SymInt)):
+        return _st.unpack("f", _st.pack("f", v))[0]
+    if isinstance(v, SymInt):
+        e = v.e
+        a = z3.If(e >= 0, e, -e)
+        engine().require(a < 2 ** 31, "integer stored into float32 below 2**31")
+        r = a
+        for k in range(24, 31):
+            st = 2 ** (k - 23)
+            q, m = a / st, a % st
+            up = z3.Or(m * 2 > st, z3.And(m * 2 == st, q % 2 == 1))
+            r = z3.If(z3.And(a >= 2 ** k, a < 2 ** (k + 1)), st * z3.If(up, q + 1, q), r)
+        return wrap(z3.ToReal(z3.If(e >= 0, r, -r)))
+    if isinstance(v, SymReal):
+        if v.e.get_id() in SINGLE_TERMS or z3.is_rational_value(v.e):
+            if z3.is_rational_value(v.e):
+                return to_single(float(v.e.as_fraction()))
+            return v
+        raise Unsupported("float32 rounding of an arbitrary symbolic real")
+    return v
+
 
 
 def _isnan(v):
@@ -184,6 +224,8 @@ class SArr(core._ArrLike):
         if self.dtype == "i":
             if isinstance(v, (SymReal, float)):
                 return core.sym_trunc(v)
+        if self.buf.single:
+            return to_single(v)
         return v
 
     def flat(self):
@@ -209,8 +251,10 @@ class SArr(core._ArrLike):
         if dt == "i":
             vals = [core.sym_trunc(v) for v in vals]
         elif dt == "f":
-            vals = [v for v in vals]
-        return SArr(Buf(vals), self.shape, dtype=dt)
+            vals = [to_single(v) for v in vals] if t is float32 else [v for v in vals]
+        out = SArr(Buf(vals), self.shape, dtype=dt)
+        out.buf.single = t is float32
+        return out
 
     def item(self):
         if self.size != 1:
@@ -802,7 +846,9 @@ def zeros(shape, dtype=None):
         if s < 0:
             raise ValueError("negative dimensions are not allowed")
         n *= s
-    return SArr(Buf([z] * n), shape, dtype=dt)
+    out = SArr(Buf([z] * n), shape, dtype=dt)
+    out.buf.single = dtype is float32
+    return out
 
 
 def empty(shape, dtype=None):
@@ -831,7 +877,10 @@ def asarray(x, dtype=None):
         return _NoneArr()
     if _is_scalar(x):
         raise Unsupported("0-d arrays")
-    return SArr.from_list(x, dtype=_dtype_of(dtype) if dtype is not None else None)
+    out = SArr.from_list(x, dtype=_dtype_of(dtype) if dtype is not None else None)
+    if dtype is float32:
+        out = out.astype(float32)
+    return out
 
 
 class _NoneArr(SArr):
